@@ -7,7 +7,7 @@
     Specifications: ImportSpec.v ([Resolvable] = every transitive import can be satisfied; [CodeResolvable] =
     what the importer's own traversal demands; the hypotheses [NoErrs], [Shallow], [AcyclicFiles], [NoTwin]). *)
 From Coq Require Import String Ascii List Bool.
-From LC Require Import ImportDefs ImportSpec ImportProofs ImportPost ImportLayout.
+From LC Require Import ImportDefs ImportSpec ImportProofs ImportGuard ImportPost ImportLayout.
 Import ListNotations.
 Local Open Scope string_scope.
 
@@ -158,12 +158,19 @@ Theorem C07_resolve_true_post_partial : forall fs strict m0 fx (rank urank : str
      fs_model fs (key_of o url) = Some sm -> In url' (import_urls sm) -> urank url' < urank url) ->
   OriginShallow m0 ->
   forall fuel st st', cons fs st -> resolve_imports fuel strict fs st m0 = Ok (true, st') ->
-  (* 85ba0d4: hasUnitsCycle finds no units cycle in the resolved model and the files (stated, not derived from the
-     ranks; it holds trivially for the code before that commit, where the guard does not exist) *)
-  GuardSilent fs fx st' m0 ->
   exists N, forall fuel', N <= fuel' -> has_unresolved_imports fx fuel' st' m0 = Ok false.
 Proof. exact ImportPost.resolve_true_post_partial. Qed.
 Print Assumptions C07_resolve_true_post_partial.
+
+(** 85ba0d4: the guard hasUnitsCycle (fx_cycle_guard) answers false on every resolved units — [TU] is the inductive
+    "resolved" predicate that a successful resolution establishes (ImportPost); its derivation is well-founded, the path
+    kept by unitsCycleFrom consists of ancestors, and (pigeonhole) is never longer than the number of units, so the walk
+    neither meets a units again nor runs out of fuel.  This is what removes the guard from the post-condition above:
+    no hypothesis about the guard is left there. *)
+Theorem C07_guard_silent_on_resolved : forall st m0 fx o cm u,
+  TU st o cm u -> content st m0 o = Some cm -> In u (m_units cm) -> guarded fx st m0 o cm u = false.
+Proof. exact ImportGuard.TU_guard_silent. Qed.
+Print Assumptions C07_guard_silent_on_resolved.
 
 Example C07_resolve_true_post_nonvacuous :
   exists fx (rank urank : string -> nat) st',
